@@ -749,7 +749,7 @@ PROPS["C09"] = mpmc_prop("C09", 9, [(0, "sr", 0, 4), (1, "sr", 0, 4), (1, "tr", 
                             H(MPMC, "zst_array_c2", "hold", replay=("mpmc_zst_array", 2), mask=P(9), est_s=15, est_gb=1,
                               bounds="zero-sized payload over ArrayBuf, capacity 2")])
 PROPS["C10"] = mpmc_prop("C10", 10, [(0, "sr", 0, 4), (1, "sr", 0, 4), (0, "sr", 5, 5), (1, "sr", 4, 5), (1, "cl", 3, 5), (0, "cl", 3, 5), (2, "sr", 4, 5), (1, "tr", 0, 4),
-                                     (1, "cl", 4, 5), (2, "tr", 4, 5)],
+                                     (1, "cl", 4, 5), (2, "tr", 4, 5), (1, "tr", 6, 5)],
                         extra_quick=MPMC_WITNESSES + [
                             H(LIFE, "shared_waker_mpmc", "hold", replay=("shared_waker_mpmc", 0), mask=P(10), est_s=250, est_gb=18, mem_gb=30, timeout=1500,
                               bounds="shared (Arc) mpmc receive future: polled with waker A, re-polled with B (same data pointer, other vtable), "
